@@ -1184,6 +1184,7 @@ def comprehension(ex, e, fr, kind):
         g = gens[gi]
         it = iterable(ex, ex.eval(g.iter, frame))
         if isinstance(it, SymIter):
+            ex.ghost["__compkind__"] = kind
             for h in COMPREHENSION_HOOKS:
                 r = h(ex, e, frame, it, gi)
                 if r is not NotImplemented:
@@ -1569,8 +1570,15 @@ def b_all(ex, args, kwargs):
     return True
 
 
+SUM_HOOKS = []
+
+
 def b_sum(ex, args, kwargs):
     it = args[0]
+    for h in SUM_HOOKS:
+        r = h(ex, args)
+        if r is not NotImplemented:
+            return r
     acc = args[1] if len(args) > 1 else 0
     for x in as_list(ex, it):
         acc = binop(ex, ast.Add(), acc, x)
